@@ -7,4 +7,7 @@ for s in A B; do
   /verif/tools_seed_eval.py $d $p $p-$tag$s ${extra:+--checks $p,$extra} 2>&1 | grep -v "^WARNING" > /var/tmp/vlogs/seed-$p-$tag$s.json
   echo "== $p-$tag$s: $(grep -E '"demo_clean"|"demo_patched"|"suite_ok"|"exit"|stored|NOT|signature' /var/tmp/vlogs/seed-$p-$tag$s.json | tr -d '\n' | cut -c1-420)"
 done
+for s in A B; do
+  if [ -d /tmp/wt-$p-$tag/seed$s ] && [ ! -d /verif/seeded/$p-$tag$s ]; then mkdir -p /var/tmp/seeds-unconfirmed; rm -rf /var/tmp/seeds-unconfirmed/$p-$tag$s; cp -r /tmp/wt-$p-$tag/seed$s /var/tmp/seeds-unconfirmed/$p-$tag$s; fi
+done
 git -C /repo worktree remove --force /tmp/wt-$p-$tag
